@@ -19,10 +19,6 @@ import dali.driver.unipi as UP
 import dali.driver.atxled as ATX
 from dali.exceptions import UnsupportedFrameTypeError, CommunicationError
 
-# the deeper thorough case list (kept in cases()) could not be re-validated end to end after the final harness
-# changes within the session: see symx/runner.py
-THOROUGH_CASES = "quick"
-
 META = {
     "level_text": "Bounded symbolic verification of every driver's packet builder and packet reader: a command "
                   "whose 16- or 24-bit frame is fully symbolic (send-twice / query flags enumerated) is sent "
